@@ -34,7 +34,7 @@ ASSUMPTIONS = [
     "a ',' counts as decimal mark only between two digits (lasio's documented comma-decimal-mark policy)",
     "non-Latin-1 characters (e.g. Arabic-Indic digits) are outside the alphabet bound",
 ]
-WITNESS_TARGETS = ["int-branch", "float-branch", "non-finite-fallback", "comma-substituted", "api-uwi-exempt", "verbatim-text", "integer-too-large-for-int64-becomes-float"]
+WITNESS_TARGETS = ["int-branch", "float-branch", "non-finite-fallback", "comma-substituted", "api-uwi-exempt", "verbatim-text", "integer-too-large-for-int64-becomes-float", "converted-after-other-values"]
 EXCLUSIONS = {}
 
 # independent recogniser of plain decimal literals (ASCII)
@@ -50,7 +50,13 @@ def tasks(tier):
         for nd in (18, 19, 20):
             for t in (["~Well", "~Parameter"] if tier == "quick" else ["~Version", "~Well", "~Parameter", "~Xyz"]):
                 out.append({"name": "longint/%s%dd/%s" % (sign or "u", nd, t), "params": {"title": t, "version": 2.0, "long": [sign, nd], "mcap": b["mnemonic_cap"]}})
+    # a conversion does not depend on the values converted before it (same process, same and other parser objects)
+    for t in ("~Well", "~Parameter"):
+        out.append({"name": "after-other-values/%s" % t, "params": {"title": t, "version": 2.0, "vcap": min(b["value_cap"], 5), "mcap": 1, "prelude": PRELUDE}})
     return out
+
+
+PRELUDE = [["1,5A", "1,5A"], ["2.5B", "2.5B"], ["7", 7], ["1,5", 1.5], ["0,3>", "0,3>"]]  # (text, expected value)
 
 
 def value_slot(title, version):
@@ -83,6 +89,13 @@ def harness(ns, params):
         c.inputs = inputs
         apply_exclusions(inputs)
         parser = ns.reader.SectionParser(title, version=version)
+        if params.get("prelude"):
+            inputs["prelude"] = [pv for pv, _ in params["prelude"]]
+            for pv, want in params["prelude"]:
+                for prs in (parser, ns.reader.SectionParser("~Parameter", version=2.0)):
+                    got = prs(name="Q", unit="", value=pv, descr="d").value
+                    core.oblige("earlier-conversion-as-usual", (got == want) and type(got).__name__.startswith(type(want).__name__[:3]) if not isinstance(want, str) else (isinstance(got, str) and got == want))
+            core.witness("converted-after-other-values")
         keys = {"name": m, "unit": "", "value": "filler", "descr": "filler"}
         keys[value_slot(title, version)] = x
         try:
@@ -136,6 +149,9 @@ def replay(i):
 
     title, version, x, m = i["title"], i["version"], i["x"], i["m"]
     parser = R.SectionParser(title, version=version)
+    for pv in i.get("prelude", []):
+        for prs in (parser, R.SectionParser("~Parameter", version=2.0)):
+            prs(name="Q", unit="", value=pv, descr="d")
     keys = {"name": m, "unit": "", "value": "filler", "descr": "filler"}
     keys[value_slot(title, version)] = x
     try:
